@@ -353,8 +353,72 @@ func engineB(c *core.Ctx) error {
 		return err
 	}
 	cases = append(cases, heapCases...)
+	pinned, err := pinnedCases(c)
+	if err != nil {
+		return err
+	}
+	cases = append(cases, pinned...)
 	sort.SliceStable(cases, func(i, j int) bool { return cases[i].Seed < cases[j].Seed })
 	return judgeCases(c, cases, true)
+}
+
+// pinnedCases: one fixed minimal case per finding of this property (open or
+// repaired), executed on every run so that an open finding is exhibited every
+// time and a repaired one is noticed the moment it returns.
+func pinnedCases(c *core.Ctx) ([]*caseT, error) {
+	w := func(s string) qs.Term { t, _ := qs.TermOf(s); return t }
+	doc := func(id int, f string, vals ...string) *qs.Doc {
+		d := &qs.Doc{ID: id, Txt: map[string][][]qs.Term{}, Num: map[string][]int{}}
+		for _, v := range vals {
+			d.Txt[f] = append(d.Txt[f], []qs.Term{w(v)})
+		}
+		return d
+	}
+	term := func(f, t string) *qs.Node { return &qs.Node{Type: "term", Field: f, Term: w(t)} }
+	var out []*caseT
+	add := func(seed int64, docs []*qs.Doc, queries ...*qs.Node) error {
+		var h qs.History
+		live := map[int]*qs.Doc{}
+		for i, d := range docs { // two batches: two segments on scorch
+			if i%2 == 0 || len(h) == 0 {
+				h = append(h, nil)
+			}
+			h[len(h)-1] = append(h[len(h)-1], qs.Op{ID: d.ID, Doc: d})
+			live[d.ID] = d
+		}
+		ct, err := buildCorpus(c, seed, h, live, len(docs))
+		if err != nil {
+			return err
+		}
+		defer ct.close()
+		for _, q := range queries {
+			cs, err := ct.runCase(q)
+			if err != nil {
+				return err
+			}
+			out = append(out, cs)
+		}
+		return nil
+	}
+	// fuzzy: "ab"~1 against "ba" (one transposition = two Levenshtein edits)
+	if err := add(-1, []*qs.Doc{doc(0, qs.FT1, "ab"), doc(1, qs.FT1, "ba"), doc(2, qs.FT1, "b"), doc(3, qs.FK1, "ba")},
+		&qs.Node{Type: "fuzzy", Field: qs.FT1, Term: w("ab"), Fuzz: 1},
+		&qs.Node{Type: "match", Field: qs.FT1, Terms: []qs.Term{w("ab")}, Op: "or", Fuzz: 1}); err != nil {
+		return nil, err
+	}
+	// boolean must + should(min 1) of two terms, alone and inside a filter clause
+	k1 := &qs.Node{Type: "boolean", Must: []*qs.Node{term(qs.FK1, "a")}, Should: []*qs.Node{term(qs.FK1, "b"), term(qs.FK1, "c")}, MinN: 1}
+	k1b := *k1
+	if err := add(-2, []*qs.Doc{doc(0, qs.FK1, "a"), doc(1, qs.FK1, "a", "b"), doc(2, qs.FK1, "a", "c"), doc(3, qs.FK1, "b")},
+		k1, &qs.Node{Type: "boolean", Filter: []*qs.Node{&k1b}}); err != nil {
+		return nil, err
+	}
+	// regexp a|ab against the term "ab"
+	if err := add(-3, []*qs.Doc{doc(0, qs.FK1, "ab"), doc(1, qs.FK1, "a"), doc(2, qs.FK1, "b")},
+		&qs.Node{Type: "regexp", Field: qs.FK1, Alts: [][]qs.Atom{{{Cls: []int{1}}}, {{Cls: []int{1}}, {Cls: []int{2}}}}}); err != nil {
+		return nil, err
+	}
+	return out, nil
 }
 
 func heapRound(c *core.Ctx, nCorp, nQ, depth int) ([]*caseT, error) {
@@ -956,6 +1020,9 @@ func engineAOne(c *core.Ctx, cfg string, layoutA qs.Layout, engs []string) error
 func reportA(c *core.Ctx, eng, score string, cs caseA, ids []int, total int, layoutA qs.Layout) {
 	qj := tlaval.ToJSON(cs.q)
 	sig := fmt.Sprintf("engineA:%s/%s:%s", eng, scoreName(score), shapeA(cs.q))
+	if qs.IsScorch(eng) && score == "none" && qs.HasK1ShapeTLA(cs.q) {
+		sig = SigK1 // the finding repaired in a0964f3 is back
+	}
 	what := fmt.Sprintf("engine %s score=%q: query %s over postings %v (layout %v) returned %v total %d, Searchers/Query specification says %v",
 		eng, score, mustJSON(qj), cs.post, layoutA, ids, total, cs.hits)
 	c.Violation(sig, what, map[string]any{"kind": "engineA", "engine": eng, "score": score, "query": qj, "post": cs.post, "expected": cs.hits, "got": ids})
@@ -989,12 +1056,13 @@ func shapeA(v any) string {
 	}
 }
 
-// modelFindingK1: the configuration with the shapes excluded from the passing
-// configurations (boolean must + should(min 1) of >= 2 terms, score:none). TLC
-// is EXPECTED to refute EnumIsHits there; its counterexample is executed on
-// the real code, and only a reproduced real failure is reported (DESIGN 3.4).
+// modelFindingK1: the configuration that models the code AS FOUND (before the
+// repair a0964f3) for boolean must + should(min 1) of >= 2 terms under
+// score:none. TLC is EXPECTED to refute EnumIsHits there; its counterexample is
+// executed on the real code as a regression detector, and only a reproduced
+// real failure is reported (DESIGN 3.4).
 func modelFindingK1(c *core.Ctx) error {
-	res, err := c.RunTLC("exhaustive(expected-counterexample)", "MCSearchers", "MCSearchers_c02_k1.cfg", core.Workers(2), core.Timeout(8*time.Minute))
+	res, err := c.RunTLC("exhaustive(expected-counterexample)", "MCSearchers", "MCSearchers_c02_asfound_k1.cfg", core.Workers(2), core.Timeout(8*time.Minute))
 	if err != nil {
 		return err
 	}
@@ -1035,7 +1103,7 @@ func modelFindingK1(c *core.Ctx) error {
 			mustJSON(tlaval.ToJSON(st["q"])), post, ids, total, hits)
 		c.Violation(SigK1, what, map[string]any{"kind": "engineA", "engine": qs.EngScorch, "score": "none", "query": tlaval.ToJSON(st["q"]), "post": post, "expected": hits, "got": ids, "layout": "2,1"})
 	} else {
-		c.Extra("k1_model", "model counterexample did not reproduce on the real code (fixed?)")
+		c.Extra("k1_asfound", "the as-found model's counterexample (should-minimum ignored under score:none) does not reproduce: repaired in the code")
 	}
 	return nil
 }
